@@ -21,21 +21,74 @@ theorem pool_inv (ops : List Op) :
     have := hall (op :: pre) o post (by rw [heq]; rfl)
     simpa using this
 
+/-- witness helper: the pool state after a sequence of operations from the empty pool -/
+private def nv_run (ops : List Op) : St := ops.foldl (fun st o => (step st o).1) {}
+
+/-- non-vacuity: the premises of `pool_inv` hold from a pool with one retained file and one lent handle, for a disciplined sequence (open a second handle, put the first back, discard the second, tear down) -/
+example : ∃ (s : St) (ops : List Op), s.next = 1 ∧ s.status.lookup 0 = some .lent ∧ ops.length = 4 ∧ Pool.Inv s ∧
+    (∀ (pre : List Op) (op : Op) (post : List Op), ops = pre ++ op :: post →
+      Allowed (pre.foldl (fun st o => (step st o).1) s) op) := by
+  refine ⟨nv_run [.retain 7, .acquire 7], [.acquire 7, .put 7 0, .discard 1, .closeAll], rfl, rfl, rfl,
+    inv_step_aux _ _ (inv_step_aux _ _ inv_init_aux trivial) trivial, ?_⟩
+  intro pre op post h
+  rcases pre with _ | ⟨a, _ | ⟨b, _ | ⟨c, _ | ⟨d, pre⟩⟩⟩⟩ <;>
+    simp only [List.cons_append, List.nil_append, List.cons.injEq] at h
+  · obtain ⟨rfl, _⟩ := h; trivial
+  · obtain ⟨rfl, rfl, _⟩ := h; exact (rfl : _ = _)
+  · obtain ⟨rfl, rfl, rfl, _⟩ := h; exact (rfl : _ = _)
+  · obtain ⟨rfl, rfl, rfl, rfl, _⟩ := h; trivial
+  · obtain ⟨_, _, _, _, h⟩ := h; simp at h
+
 /-- No handle is lent to two holders. -/
 theorem acquire_exclusive (s : St) (p h : Nat) (hi : Pool.Inv s) (ha : (step s (.acquire p)).2 = some h) :
     (s.status.lookup h = some .idle ∨ (h = s.next ∧ s.status.lookup h = none)) ∧
     (step s (.acquire p)).1.status.lookup h = some .lent :=
   acquire_exclusive_aux s p h hi ha
 
+/-- non-vacuity: the premises of `acquire_exclusive` hold when an idle handle is lent again (two handles opened, handle 0 put back, then acquire) -/
+example : ∃ (s : St) (p h : Nat), Pool.Inv s ∧ (step s (.acquire p)).2 = some h ∧
+    s.status.lookup h = some .idle ∧ s.next = 2 :=
+  ⟨nv_run [.retain 7, .acquire 7, .acquire 7, .put 7 0], 7, 0,
+    inv_step_aux _ _ (inv_step_aux _ _ (inv_step_aux _ _ (inv_step_aux _ _ inv_init_aux trivial) trivial) trivial)
+      (rfl : _ = _),
+    rfl, rfl, rfl⟩
+
+/-- non-vacuity: the premises of `acquire_exclusive` also hold when a new handle is opened while another is lent (the second disjunct of the conclusion) -/
+example : ∃ (s : St) (p h : Nat), Pool.Inv s ∧ (step s (.acquire p)).2 = some h ∧
+    h = s.next ∧ s.status.lookup h = none ∧ s.status.lookup 0 = some .lent :=
+  ⟨nv_run [.retain 7, .acquire 7], 7, 1,
+    inv_step_aux _ _ (inv_step_aux _ _ inv_init_aux trivial) trivial, rfl, rfl, rfl, rfl⟩
+
 /-- No handle is closed (or lent again) while a reader holds it. -/
 theorem lent_untouched (s : St) (op : Op) (h : Nat) (hi : Pool.Inv s) (hl : s.status.lookup h = some .lent)
     (hop : op ≠ .discard h ∧ ∀ p, op ≠ .put p h) : (step s op).1.status.lookup h = some .lent :=
   lent_untouched_aux s op h hi hl hop
+
+/-- non-vacuity: the premises of `lent_untouched` hold for two lent handles, where the other reader discards its handle 1 while handle 0 stays lent -/
+example : ∃ (s : St) (op : Op) (h : Nat), Pool.Inv s ∧ s.status.lookup h = some .lent ∧
+    (op ≠ .discard h ∧ ∀ p, op ≠ .put p h) ∧ op = .discard 1 ∧ s.status.lookup 1 = some .lent :=
+  ⟨nv_run [.retain 7, .acquire 7, .acquire 7], .discard 1, 0,
+    inv_step_aux _ _ (inv_step_aux _ _ (inv_step_aux _ _ inv_init_aux trivial) trivial) trivial,
+    rfl, ⟨by decide, fun p h => by cases h⟩, rfl, rfl⟩
 
 /-- After teardown every opened handle has been closed exactly once. -/
 theorem closed_exactly_once (s : St) (hi : Pool.Inv s) (hc : s.closed = true)
     (hl : ∀ h, s.status.lookup h ≠ some .lent) :
     ∀ h, h < s.next → s.status.lookup h = some (.closed 1) ∨ s.status.lookup h = none :=
   closed_exactly_once_aux s hi hc hl
+
+/-- non-vacuity: the premises of `closed_exactly_once` hold after a real teardown (two handles opened, one put back idle, one discarded, then closeAll): both handles end closed exactly once -/
+example : ∃ s : St, Pool.Inv s ∧ s.closed = true ∧ (∀ h, s.status.lookup h ≠ some .lent) ∧
+    s.next = 2 ∧ s.status = [(0, .closed 1), (1, .closed 1)] := by
+  refine ⟨nv_run [.retain 7, .acquire 7, .acquire 7, .put 7 0, .discard 1, .closeAll],
+    inv_step_aux _ _ (inv_step_aux _ _ (inv_step_aux _ _ (inv_step_aux _ _ (inv_step_aux _ _
+      (inv_step_aux _ _ inv_init_aux trivial) trivial) trivial) (rfl : _ = _)) (rfl : _ = _)) trivial,
+    rfl, ?_, rfl, rfl⟩
+  intro h
+  show List.lookup h [(0, HStatus.closed 1), (1, HStatus.closed 1)] ≠ some HStatus.lent
+  simp only [List.lookup]
+  split
+  · simp
+  · split <;> simp
 
 end BloomVerif.C21
